@@ -84,8 +84,11 @@ harnesses! {
         (h_members::c14_next_k4, 8),
         (h_members::c14_next_k5, 8),
         (h_misc::c08_accumulating_runtime, 7),
+        (h_misc::c08_accumulating_send, 7),
+        (h_misc::c08_accumulating_runtime_b, 7),
         (h_misc::c15_key_same_addr, 7),
         (h_misc::c15_key_diff_addr, 7),
+        (h_misc::c16_broadcast_drain, 7),
     ],
     stubbed: [
         (h_c11::c11_timeout_iff, 7),
@@ -105,6 +108,7 @@ harnesses! {
         (ops_timer::t_remove, 7),
         (ops_timer::t_announce, 7),
         (ops_timer::t_gossip, 7),
+        (ops_timer::t_gossip_idle, 7),
         (ops_timer::t_announce_down, 7),
         (ops_api::a_apply1_k1, 7),
         (ops_api::a_apply1_k2, 7),
